@@ -772,13 +772,21 @@ Theorem C12_v4_applied_piecewise :
   (forall S F fin val rate u rest t,
      ups_ok S F fin (u :: rest) -> t < u_time S F u -> spec_applied S F val rate (u :: rest) t = Some (val u)) /\
   (forall S F u0 ups t0 ts, v4_final S F (u0 :: ups) (t0 :: ts) =
-     Some (qmax (u_time S F (List.last (u0 :: ups) u0)) (List.last (t0 :: ts) t0) + 1)) /\
+     Some (qmax (u_time S F (List.last (u0 :: ups) u0)) (List.last (t0 :: ts) t0) + v4_pad)) /\
   (forall a b, a <= qmax a b /\ b <= qmax a b).
 Proof.
   exact (conj v4_piecewise (conj v4_before_first (conj v4_spec_piecewise (conj v4_spec_before_first
           (conj v4_final_spec qmax_ge))))).
 Qed.
 Print Assumptions C12_v4_applied_piecewise.
+
+(* From the source at every run: the end point of an update's segment lies 1e-6 s before the next update, final_time
+   1 s after the later of the last update and the last dump; the statement order of _calc_delay. *)
+Theorem C12_v4_delay_shape : v4_eps == 1 # 1000000 /\ v4_pad == 1 /\
+  v4_delay_steps = ["times=sync+count/scale"; "final=max(last update,last dump)+pad"; "next_times=times[1:]-eps,final";
+                    "next=value+rate*(next_times-times)"; "interleave"; "store delay and phase getters"]%string.
+Proof. exact v4_constants. Qed.
+Print Assumptions C12_v4_delay_shape.
 
 Theorem C12_v4_applied_example :
   let ups := [mkU 0 1 (-1) 0 2; mkU 8 2 0 10 3; mkU 16 3 1 20 4] in
